@@ -46,3 +46,13 @@ func VerifSmokeYaml() {
 	verifObserve("whole", whole)
 	verifCover("smoke/end")
 }
+
+func VerifSmokeDeepMatch() {
+	r1 := deepMatch("b", "*a")
+	r2 := deepMatch("ba", "*a")
+	r3 := deepMatch("a", "*a")
+	r4 := deepMatch("", "*a")
+	verifObserve("r", []bool{r1, r2, r3, r4})
+	verifAssert(!r1 && r2 && r3 && !r4, "smoke/deepmatch")
+	verifCover("smoke/deepmatch/end")
+}
